@@ -2,7 +2,8 @@ import MgProof.C12.LemmasDes
 import MgProof.C12.LemmasAes
 /-!
 # C12 — two facts that shrink the trusted part: the 3DES single-IP/FP shortcut of the
-compiled code is sound, and the S-box table is the algebraic S-box of FIPS-197
+compiled code is sound, its SP tables are `P ∘ S_i`, and the AES S-box table is the algebraic
+S-box of FIPS-197
 -/
 namespace MgProof.C12
 open MgModel.C12 MgModel.C12.Des MgModel.C12.Tables
@@ -32,6 +33,68 @@ theorem tdes_single_ip_fp (ks1 ks2 ks3 : List Bits) (x : Bits) :
   have h1 := core_length ks1 _ h0
   have h2 := core_length ks2 _ h1
   rw [cryptBits_eq_core ks3, cryptBits_eq_core ks2, cryptBits_eq_core ks1, ip_fp _ h1, ip_fp _ h2]
+
+/-! ## the combined S-box/P tables of the compiled DES core are `P ∘ S_i` of FIPS 46-3
+
+Representation used by `openssl_des.c` for a 32-bit half block: FIPS bit `q` (1 = most
+significant) sits at bit `(q + 2) mod 32` of the machine word (LSB-first numbering, then
+`ROTATE(x, 29)`); the 6-bit table index holds the S-box input `b1..b6` LSB first. -/
+
+/-- the machine word of a FIPS-numbered 32-bit string -/
+def osslWord (x : Bits) : Nat :=
+  ((List.range 32).map fun q => if x.getD q false then 2 ^ ((q + 3) % 32) else 0).sum
+
+/-- `P(0..0 S_i(b1..b6) 0..0)`: the contribution of S-box `i` to `f(R, K)` -/
+def spSpec (i idx : Nat) : Bits :=
+  let inp := (List.range 6).map fun k => idx.testBit k
+  let out := sboxOne (desSbox.getD i []) inp
+  permute desP (List.replicate (4 * i) false ++ out ++ List.replicate (28 - 4 * i) false)
+
+set_option maxRecDepth 1000000 in
+theorem sptrans_box0 : ∀ v, v < 64 → (osslSPtrans.getD 0 []).getD v 0 = osslWord (spSpec 0 v) := by
+  decide +kernel
+
+set_option maxRecDepth 1000000 in
+theorem sptrans_box1 : ∀ v, v < 64 → (osslSPtrans.getD 1 []).getD v 0 = osslWord (spSpec 1 v) := by
+  decide +kernel
+
+set_option maxRecDepth 1000000 in
+theorem sptrans_box2 : ∀ v, v < 64 → (osslSPtrans.getD 2 []).getD v 0 = osslWord (spSpec 2 v) := by
+  decide +kernel
+
+set_option maxRecDepth 1000000 in
+theorem sptrans_box3 : ∀ v, v < 64 → (osslSPtrans.getD 3 []).getD v 0 = osslWord (spSpec 3 v) := by
+  decide +kernel
+
+set_option maxRecDepth 1000000 in
+theorem sptrans_box4 : ∀ v, v < 64 → (osslSPtrans.getD 4 []).getD v 0 = osslWord (spSpec 4 v) := by
+  decide +kernel
+
+set_option maxRecDepth 1000000 in
+theorem sptrans_box5 : ∀ v, v < 64 → (osslSPtrans.getD 5 []).getD v 0 = osslWord (spSpec 5 v) := by
+  decide +kernel
+
+set_option maxRecDepth 1000000 in
+theorem sptrans_box6 : ∀ v, v < 64 → (osslSPtrans.getD 6 []).getD v 0 = osslWord (spSpec 6 v) := by
+  decide +kernel
+
+set_option maxRecDepth 1000000 in
+theorem sptrans_box7 : ∀ v, v < 64 → (osslSPtrans.getD 7 []).getD v 0 = osslWord (spSpec 7 v) := by
+  decide +kernel
+
+/-- **`openssl_des_sptrans[i][v] = word(P(S_i(v)))`** for all 8 x 64 entries (tables of tie A) -/
+theorem sptrans_is_P_after_S (i : Nat) (hi : i < 8) (v : Nat) (hv : v < 64) :
+    (osslSPtrans.getD i []).getD v 0 = osslWord (spSpec i v) := by
+  have h : i = 0 ∨ i = 1 ∨ i = 2 ∨ i = 3 ∨ i = 4 ∨ i = 5 ∨ i = 6 ∨ i = 7 := by omega
+  rcases h with rfl | rfl | rfl | rfl | rfl | rfl | rfl | rfl
+  · exact sptrans_box0 v hv
+  · exact sptrans_box1 v hv
+  · exact sptrans_box2 v hv
+  · exact sptrans_box3 v hv
+  · exact sptrans_box4 v hv
+  · exact sptrans_box5 v hv
+  · exact sptrans_box6 v hv
+  · exact sptrans_box7 v hv
 
 end MgProof.C12
 
